@@ -1,5 +1,726 @@
 /-
-  C01 — generated data validates against its own schema (statements are being added).
+  C01 — generated data validates against its own schema, for every outcome of every random draw.
+
+  The generator consumes an explicit list of answers (`Draws`), each range-checked against what the code
+  asked for, so a theorem about `gen env s st = .ok (v, st')` quantifies over *all* outcomes of *all*
+  draws, both ends of every range included.
 -/
 import D42.Model.Gen
-import D42.Spec.Conforms
+import D42.Props.C02
+import D42.Props.C09
+
+namespace D42
+
+/-! ### what is assumed of the environment (CPython facts, stated — not axioms) -/
+
+/-- IEEE rounding is monotone (this carries `min ≤ k/10^p` over ℚ to `min ≤ fl(k/10^p)` over doubles),
+    and `round(x, p)` is the identity on `fl(k/10^p)` -/
+structure EnvOK (env : Env) : Prop where
+  fl_mono : ∀ a b : Rat, a ≤ b → PyFloat.le (env.fl a) (env.fl b) = true
+  round_stable : ∀ (k : Int) (p : Nat), roundP env (env.fl ((k : Rat) / ((10 ^ p : Nat) : Rat))) p = env.fl ((k : Rat) / ((10 ^ p : Nat) : Rat))
+
+/-- `float(repr(x)) == x`: the decimal companion of a declared bound rounds back to the bound -/
+def DecOK (env : Env) : Option PyFloat → Option Rat → Prop
+  | some (.fin q), some d => env.fl d = .fin q
+  | some (.fin _), none => False
+  | _, _ => True
+
+/-- CPython's `re.search` finds a match whenever the whole string is in the language of the pattern -/
+def RxComplete (env : Env) (ext : ClsItem → Nat → Prop) (pat : Pat) : Prop :=
+  ∀ s, MatchesSeq ext pat.tree s → env.rxSearch pat.id s = true
+
+/-! ### hypotheses on the schema (they exclude exactly the recorded findings K2, K4 and unsatisfiable pieces) -/
+
+/-- the fixed value of a scalar schema -/
+def ScalarS.fixedV : ScalarS → Option PyVal
+  | .none => Option.none
+  | .bool v => v.map PyVal.bool
+  | .int v _ _ => v.map PyVal.int
+  | .float v _ _ _ _ _ => v.map PyVal.float
+  | .str v _ _ _ _ => v.map PyVal.str
+  | .bytes v => v.map PyVal.bytes
+  | .uuid4 v => v.map (fun iv => PyVal.uuid iv.1 iv.2)
+  | .datetime v => v.map PyVal.datetime
+  | .date v => v.map (fun bi => if bi.1 then PyVal.datetime bi.2 else PyVal.date bi.2)
+
+/-- a scalar schema the generator can serve:
+    * a fixed value conforms to the schema itself (what declaration guarantees — C10);
+    * a pattern excludes every other str constraint (what declaration guarantees) and `re.search` is complete for it;
+    * an unfixed, pattern-free str schema is satisfiable;
+    * declared float bounds have faithful decimal companions when a precision grid is used. -/
+def ScalarGenHyp (env : Env) (ext : ClsItem → Nat → Prop) (k : ScalarS) : Prop :=
+  (∀ v, k.fixedV = some v → validateScalar env k v [] = []) ∧
+  (match k with
+   | .str none L al sub (some pat) => L = {} ∧ al = none ∧ sub = none ∧ RxComplete env ext pat
+   | .str none L al sub none => ∃ w, ConformsScalar env (.str none L al sub none) w
+   | .float none mn mx (some _) mnDec mxDec => DecOK env mn mnDec ∧ DecOK env mx mxDec
+   | _ => True)
+
+/-- list lengths the generator can honour: a declared exact length is what it will produce, a declared
+    maximum is not negative -/
+def LenGenOK (L : LenP) : Prop :=
+  (∀ k, L.len = some k → LenOK L k.toNat) ∧ (∀ k, L.maxLen = some k → 0 ≤ k) ∧
+  (∀ a b, L.minLen = some a → L.maxLen = some b → a ≤ b)
+
+mutual
+/-- hereditary generation hypothesis (HSat ∧ GenOK of DESIGN §3 C01) -/
+def GenHyp (env : Env) (ext : ClsItem → Nat → Prop) : Schema → Prop
+  | .scalar k => ScalarGenHyp env ext k
+  | .listU L => LenGenOK L
+  | .listT t L => LenGenOK L ∧ GenHyp env ext t
+  | .listE _ es _ L => LenOK L es.length ∧ GenHypL env ext es          -- K2: the generator emits exactly the concrete elements
+  | .dict none _ => True
+  | .dict (some fs) _ => (fs.map (·.1)).Nodup ∧ GenHypF env ext fs
+  | .any none => True
+  | .any (some ts) => GenHypL env ext ts                              -- K4: every alternative, not just one
+  | .alias _ t => GenHyp env ext t
+  | .custom t => GenHyp env ext t
+def GenHypL (env : Env) (ext : ClsItem → Nat → Prop) : List Schema → Prop
+  | [] => True
+  | s :: ss => GenHyp env ext s ∧ GenHypL env ext ss
+def GenHypF (env : Env) (ext : ClsItem → Nat → Prop) : List (PyKey × Bool × Schema) → Prop
+  | [] => True
+  | (_, opt, s) :: fs => (opt = false → GenHyp env ext s) ∧ GenHypF env ext fs
+end
+
+/-! ### PART A — scalars (to prove) -/
+
+/-- `randomStr n alphabet` returns exactly `n` characters, all from the alphabet, whatever the draws -/
+theorem randomStr_spec (n : Nat) (alphabet : List Nat) (st st' : GS) (s : Str)
+    (h : randomStr n alphabet st = .ok (s, st')) : s.length = n ∧ ∀ c ∈ s, c ∈ alphabet := by
+  induction n generalizing st st' s with
+  | zero =>
+    simp only [randomStr, pure] at h
+    obtain ⟨rfl, _⟩ := G.pure_ok h
+    simp
+  | succ n ih =>
+    simp only [randomStr, bind, pure] at h
+    obtain ⟨c, st1, h1, h2⟩ := G.bind_ok h
+    obtain ⟨r, st2, h3, h4⟩ := G.bind_ok h2
+    obtain ⟨rfl, _⟩ := G.pure_ok h4
+    obtain ⟨hl, hm⟩ := ih _ _ _ h3
+    refine ⟨by simp [hl], ?_⟩
+    intro x hx
+    rcases List.mem_cons.1 hx with rfl | hx
+    · exact choiceChar_ok h1
+    · exact hm x hx
+
+theorem rat_le_div {a b c : Rat} (hc : 0 < c) (h : a * c ≤ b) : a ≤ b / c := by
+  rw [← Rat.not_lt] at h ⊢
+  rwa [Rat.div_lt_iff hc]
+
+theorem rat_div_le {a b c : Rat} (hc : 0 < c) (h : b ≤ a * c) : b / c ≤ a := by
+  rw [← Rat.not_lt] at h ⊢
+  rwa [Rat.lt_div_iff hc]
+
+theorem pow10_pos (p : Nat) : (0 : Rat) < ((10 ^ p : Nat) : Rat) := by
+  rw [Rat.natCast_pos]; exact Nat.pow_pos (by decide)
+
+/-- `ceil(d·10^p) ≤ k` puts the grid point `k/10^p` at or above `d` -/
+theorem ceil_grid_le {d : Rat} {p : Nat} {k : Int} (h : (d * ((10 ^ p : Nat) : Rat)).ceil ≤ k) :
+    d ≤ (k : Rat) / ((10 ^ p : Nat) : Rat) :=
+  rat_le_div (pow10_pos p) (Rat.ceil_le_iff.1 h)
+
+/-- `k ≤ floor(d·10^p)` puts the grid point `k/10^p` at or below `d` -/
+theorem grid_le_floor {d : Rat} {p : Nat} {k : Int} (h : k ≤ (d * ((10 ^ p : Nat) : Rat)).floor) :
+    (k : Rat) / ((10 ^ p : Nat) : Rat) ≤ d :=
+  rat_div_le (pow10_pos p) (Rat.le_floor_iff.1 h)
+
+theorem uniform_ok {env : Env} {a b f : PyFloat} {st st' : GS} (h : uniform env a b st = .ok (f, st')) :
+    PyFloat.le a f = true ∧ PyFloat.le f b = true := by
+  unfold uniform at h
+  split at h
+  · split at h
+    · split at h
+      · split at h
+        · rename_i hc
+          simp at h
+          obtain ⟨rfl, _⟩ := h
+          simpa using hc
+        · simp at h
+      · simp at h
+    · simp at h
+  · simp at h
+
+/-- inversion of the grid branch of `randomFloat` -/
+theorem randomFloat_grid_ok {env : Env} {lo hi : PyFloat} {loDec hiDec : Option Rat} {p : Nat}
+    {st st' : GS} {f : PyFloat}
+    (h : randomFloat env lo hi loDec hiDec (some p) st = .ok (f, st')) :
+    ∃ (l r k : Int), decCeil lo loDec p = .ok l ∧ decFloor hi hiDec p = .ok r ∧ l ≤ k ∧ k ≤ r ∧
+      f = roundP env (env.fl ((k : Rat) / ((10 ^ p : Nat) : Rat))) p := by
+  unfold randomFloat at h
+  split at h
+  · simp [G.fail] at h
+  · simp only [bind, pure] at h
+    obtain ⟨l, st1, h1, h2⟩ := G.bind_ok h
+    obtain ⟨r, st2, h3, h4⟩ := G.bind_ok h2
+    obtain ⟨k, st3, h5, h6⟩ := G.bind_ok h4
+    obtain ⟨rfl, _⟩ := G.pure_ok h6
+    obtain ⟨h7, h8, _⟩ := randint_ok h5
+    exact ⟨l, r, k, liftE_ok h1, liftE_ok h3, h7, h8, rfl⟩
+
+/-- lower half of `randomFloat_in_bounds`: needs the decimal companion of the lower bound only,
+    and only when a precision grid is used -/
+theorem randomFloat_lo (env : Env) (he : EnvOK env) (lo hi : PyFloat) (loDec hiDec : Option Rat) (prec : Option Nat)
+    (st st' : GS) (f : PyFloat)
+    (hlo : prec.isSome = true → DecOK env (some lo) loDec)
+    (h : randomFloat env lo hi loDec hiDec prec st = .ok (f, st')) :
+    PyFloat.le lo f = true := by
+  cases prec with
+  | none =>
+    unfold randomFloat at h
+    split at h
+    · simp [G.fail] at h
+    · exact (uniform_ok h).1
+  | some p =>
+    obtain ⟨l, r, k, h1, _, h3, _, rfl⟩ := randomFloat_grid_ok h
+    have hd := hlo rfl
+    rw [he.round_stable]
+    cases lo with
+    | fin q =>
+      cases loDec with
+      | none => simp [DecOK] at hd
+      | some d =>
+        simp only [DecOK] at hd
+        simp only [decCeil, Except.ok.injEq] at h1
+        subst h1
+        rw [← hd]
+        exact he.fl_mono _ _ (ceil_grid_le h3)
+    | pinf => simp [decCeil] at h1
+    | ninf => simp [decCeil] at h1
+    | nan => simp [decCeil] at h1
+
+/-- upper half of `randomFloat_in_bounds` -/
+theorem randomFloat_hi (env : Env) (he : EnvOK env) (lo hi : PyFloat) (loDec hiDec : Option Rat) (prec : Option Nat)
+    (st st' : GS) (f : PyFloat)
+    (hhi : prec.isSome = true → DecOK env (some hi) hiDec)
+    (h : randomFloat env lo hi loDec hiDec prec st = .ok (f, st')) :
+    PyFloat.le f hi = true := by
+  cases prec with
+  | none =>
+    unfold randomFloat at h
+    split at h
+    · simp [G.fail] at h
+    · exact (uniform_ok h).2
+  | some p =>
+    obtain ⟨l, r, k, _, h2, _, h4, rfl⟩ := randomFloat_grid_ok h
+    have hd := hhi rfl
+    rw [he.round_stable]
+    cases hi with
+    | fin q =>
+      cases hiDec with
+      | none => simp [DecOK] at hd
+      | some d =>
+        simp only [DecOK] at hd
+        simp only [decFloor, Except.ok.injEq] at h2
+        subst h2
+        rw [← hd]
+        exact he.fl_mono _ _ (grid_le_floor h4)
+    | pinf => simp [decFloor] at h2
+    | ninf => simp [decFloor] at h2
+    | nan => simp [decFloor] at h2
+
+/-- the precision grid stays inside the declared bounds: for every drawn grid index -/
+theorem randomFloat_in_bounds (env : Env) (he : EnvOK env) (lo hi : PyFloat) (loDec hiDec : Option Rat) (prec : Option Nat)
+    (st st' : GS) (f : PyFloat)
+    (hlo : DecOK env (some lo) loDec) (hhi : DecOK env (some hi) hiDec)
+    (h : randomFloat env lo hi loDec hiDec prec st = .ok (f, st')) :
+    PyFloat.le lo f = true ∧ PyFloat.le f hi = true :=
+  ⟨randomFloat_lo env he lo hi loDec hiDec prec st st' f (fun _ => hlo) h,
+   randomFloat_hi env he lo hi loDec hiDec prec st st' f (fun _ => hhi) h⟩
+
+theorem extDraw_ok {kind : Nat} {v : PyVal} {st st' : GS} (h : extDraw kind st = .ok (v, st')) :
+    (kind = 0 → ∃ i, v = .uuid i 4) ∧ (kind = 1 → ∃ i, v = .datetime i) ∧ (kind = 2 → ∃ i, v = .date i) := by
+  unfold extDraw at h
+  split at h
+  · split at h <;> simp at h <;> (obtain ⟨rfl, _⟩ := h; simp)
+  · simp at h
+
+theorem fixed_conforms {env : Env} {ext : ClsItem → Nat → Prop} {k : ScalarS} (hk : ScalarGenHyp env ext k)
+    {v : PyVal} (hv : k.fixedV = some v) : ConformsScalar env k v :=
+  (validateScalar_nil_iff env k v []).1 (hk.1 v hv)
+
+theorem pyMaxI_ge_left (a b : Int) : a ≤ pyMaxI a b := by unfold pyMaxI; split <;> omega
+theorem pyMaxI_ge_right (a b : Int) : b ≤ pyMaxI a b := by unfold pyMaxI; split <;> omega
+theorem pyMaxI_eq_left (a b : Int) (h : b ≤ a) : pyMaxI a b = a := by unfold pyMaxI; split <;> omega
+
+theorem str_conforms {env : Env} {L : LenP} {al sub : Option Str} {g : Str}
+    (hL : LenOK L g.length) (hA : ∀ a, al = some a → ∀ c ∈ g, c ∈ a) (hS : ∀ sb, sub = some sb → sb <:+: g) :
+    ConformsScalar env (.str none L al sub none) (.str g) := by
+  simp only [ConformsScalar]
+  exact ⟨g, rfl, by simp, hL, hA, hS, by simp⟩
+
+/-- **C01, scalars.** every value the scalar generator returns is accepted by the scalar validator -/
+theorem genScalar_sound (env : Env) (he : EnvOK env) (ext : ClsItem → Nat → Prop) (k : ScalarS)
+    (hk : ScalarGenHyp env ext k) (st st' : GS) (v : PyVal) (p : Path)
+    (h : genScalar env k st = .ok (v, st')) : validateScalar env k v p = [] := by
+  rw [validateScalar_nil_iff]
+  cases k with
+  | none =>
+    simp only [genScalar, pure] at h
+    obtain ⟨rfl, _⟩ := G.pure_ok h
+    simp [ConformsScalar]
+  | bool b =>
+    cases b with
+    | none =>
+      simp only [genScalar, bind, pure] at h
+      obtain ⟨i, st1, h1, h2⟩ := G.bind_ok h
+      obtain ⟨rfl, _⟩ := G.pure_ok h2
+      simp [ConformsScalar]
+    | some b =>
+      simp only [genScalar, pure] at h
+      obtain ⟨rfl, _⟩ := G.pure_ok h
+      simp [ConformsScalar]
+  | int x mn mx =>
+    cases x with
+    | some x =>
+      simp only [genScalar, pure] at h
+      obtain ⟨rfl, _⟩ := G.pure_ok h
+      exact fixed_conforms hk rfl
+    | none =>
+      simp only [genScalar, bind, pure] at h
+      obtain ⟨n, st1, h1, h2⟩ := G.bind_ok h
+      obtain ⟨rfl, _⟩ := G.pure_ok h2
+      obtain ⟨h3, h4, _⟩ := randint_ok h1
+      simp only [ConformsScalar]
+      refine ⟨n, rfl, by simp, ?_, ?_⟩
+      · rintro m rfl; simpa using h3
+      · rintro m rfl; simpa using h4
+  | float x mn mx prec mnDec mxDec =>
+    cases x with
+    | some x =>
+      simp only [genScalar, pure] at h
+      obtain ⟨rfl, _⟩ := G.pure_ok h
+      exact fixed_conforms hk rfl
+    | none =>
+      simp only [genScalar, bind, pure] at h
+      obtain ⟨f, st1, h1, h2⟩ := G.bind_ok h
+      obtain ⟨rfl, _⟩ := G.pure_ok h2
+      have hd : prec.isSome = true → DecOK env mn mnDec ∧ DecOK env mx mxDec := by
+        intro hp
+        cases prec with
+        | none => simp at hp
+        | some pr => exact hk.2
+      simp only [ConformsScalar]
+      refine ⟨f, rfl, by simp, ?_, ?_⟩
+      · rintro m rfl
+        exact randomFloat_lo env he _ _ _ _ _ _ _ _ (fun hp => (hd hp).1) h1
+      · rintro M rfl
+        exact randomFloat_hi env he _ _ _ _ _ _ _ _ (fun hp => (hd hp).2) h1
+  | str x L al sub pat =>
+    cases x with
+    | some x =>
+      simp only [genScalar, pure] at h
+      obtain ⟨rfl, _⟩ := G.pure_ok h
+      exact fixed_conforms hk rfl
+    | none =>
+      cases pat with
+      | some pt =>
+        simp only [genScalar, bind, pure] at h
+        obtain ⟨s, st1, h1, h2⟩ := G.bind_ok h
+        obtain ⟨rfl, _⟩ := G.pure_ok h2
+        obtain ⟨rfl, rfl, rfl, hrx⟩ := hk.2
+        have := hrx s (genSeq_sound ext _ _ _ _ h1)
+        simp [ConformsScalar, LenOK, this]
+      | none =>
+        obtain ⟨w, hw⟩ := hk.2
+        simp only [ConformsScalar] at hw
+        obtain ⟨ws, rfl, _, hwL, hwA, hwS, _⟩ := hw
+        simp only [genScalar, bind, pure] at h
+        obtain ⟨len, st1, h1, h2⟩ := G.bind_ok h
+        clear h hk
+        rcases L with ⟨l, mnl, mxl⟩
+        cases sub with
+        | none =>
+          simp only at h2
+          obtain ⟨g, st2, h3, h4⟩ := G.bind_ok h2
+          obtain ⟨rfl, _⟩ := G.pure_ok h4
+          obtain ⟨hgl, hga⟩ := randomStr_spec _ _ _ _ _ h3
+          refine str_conforms ?_ (by rintro a rfl; exact hga) (by simp)
+          rw [hgl]
+          cases l with
+          | some n =>
+            simp only at h1
+            obtain ⟨rfl, _⟩ := G.pure_ok h1
+            have h0 : (ws.length : Int) = len := hwL.1 _ rfl
+            have : len.toNat = ws.length := by omega
+            rw [this]; exact hwL
+          | none =>
+            simp only at h1
+            obtain ⟨h5, h6, _⟩ := randint_ok h1
+            obtain ⟨_, hw2, hw3⟩ := hwL
+            refine ⟨by simp, ?_, ?_⟩
+            · rintro k rfl
+              simp only at h5; omega
+            · rintro k rfl
+              have := hw3 _ rfl
+              simp only at h6; omega
+        | some sb =>
+          simp only at h2
+          obtain ⟨g, st2, h3, h4⟩ := G.bind_ok h2
+          obtain ⟨off, st3, h5, h6⟩ := G.bind_ok h4
+          obtain ⟨rfl, _⟩ := G.pure_ok h6
+          obtain ⟨hgl, hga⟩ := randomStr_spec _ _ _ _ _ h3
+          obtain ⟨ho1, ho2, _⟩ := randint_ok h5
+          have hsw : sb <:+: ws := hwS sb rfl
+          have hsl : sb.length ≤ ws.length := hsw.length_le
+          refine str_conforms ?_ ?_ ?_
+          · have hlen : (List.take off.toNat g ++ sb ++ List.drop off.toNat g).length = g.length + sb.length := by
+              simp only [List.length_append, List.length_take, List.length_drop]; omega
+            rw [hlen, hgl]
+            cases l with
+            | some n =>
+              simp only at h1
+              obtain ⟨rfl, _⟩ := G.pure_ok h1
+              have h0 : (ws.length : Int) = len := hwL.1 _ rfl
+              have : (len - (sb.length : Int)).toNat + sb.length = ws.length := by omega
+              rw [this]; exact hwL
+            | none =>
+              simp only at h1
+              obtain ⟨h7, h8, _⟩ := randint_ok h1
+              obtain ⟨_, hw2, hw3⟩ := hwL
+              have h9 : (sb.length : Int) ≤ len := Int.le_trans (pyMaxI_ge_right _ _) h7
+              refine ⟨by simp, ?_, ?_⟩
+              · rintro k rfl
+                have := pyMaxI_ge_left k sb.length
+                simp only at h7; omega
+              · rintro k rfl
+                have := hw3 _ rfl
+                have hm : pyMaxI k sb.length = k := pyMaxI_eq_left _ _ (by omega)
+                simp only [hm] at h8; omega
+          · rintro a rfl c hc
+            simp only [List.mem_append] at hc
+            rcases hc with (hc | hc) | hc
+            · exact hga c (List.mem_of_mem_take hc)
+            · exact hwA _ rfl c (hsw.subset hc)
+            · exact hga c (List.mem_of_mem_drop hc)
+          · rintro sb' h; cases h
+            exact List.infix_append _ _ _
+  | bytes x =>
+    cases x with
+    | some x =>
+      simp only [genScalar, pure] at h
+      obtain ⟨rfl, _⟩ := G.pure_ok h
+      simp [ConformsScalar]
+    | none =>
+      simp only [genScalar, bind, pure] at h
+      obtain ⟨n, st1, h1, h2⟩ := G.bind_ok h
+      obtain ⟨g, st2, h3, h4⟩ := G.bind_ok h2
+      obtain ⟨rfl, _⟩ := G.pure_ok h4
+      simp [ConformsScalar]
+  | uuid4 x =>
+    cases x with
+    | some x =>
+      obtain ⟨i, ver⟩ := x
+      simp only [genScalar, pure] at h
+      obtain ⟨rfl, _⟩ := G.pure_ok h
+      exact fixed_conforms hk rfl
+    | none =>
+      simp only [genScalar] at h
+      obtain ⟨i, rfl⟩ := (extDraw_ok h).1 rfl
+      simp [ConformsScalar]
+  | datetime x =>
+    cases x with
+    | some x =>
+      simp only [genScalar, pure] at h
+      obtain ⟨rfl, _⟩ := G.pure_ok h
+      simp [ConformsScalar]
+    | none =>
+      simp only [genScalar] at h
+      obtain ⟨i, rfl⟩ := (extDraw_ok h).2.1 rfl
+      simp [ConformsScalar]
+  | date x =>
+    cases x with
+    | some x =>
+      obtain ⟨b, i⟩ := x
+      cases b <;>
+      · simp only [genScalar, pure] at h
+        obtain ⟨rfl, _⟩ := G.pure_ok h
+        simp [ConformsScalar]
+    | none =>
+      simp only [genScalar, bind] at h
+      obtain ⟨n, st1, h1, h2⟩ := G.bind_ok h
+      obtain ⟨i, rfl⟩ := (extDraw_ok h2).2.2 rfl
+      simp [ConformsScalar]
+
+/-! ### PART B — containers (to prove; may use `genScalar_sound`) -/
+
+/-! helper lemmas for `gen_sound` -/
+
+theorem genLength_list_ok {L : LenP} {n : Int} {st st' : GS}
+    (hL : LenGenOK L) (h : genLength L Consts.LIST_LEN_MIN Consts.LIST_LEN_MAX st = .ok (n, st')) :
+    LenOK L n.toNat := by
+  obtain ⟨h1, h2, h3⟩ := hL
+  unfold genLength at h
+  rcases L with ⟨l, mn, mx⟩
+  cases l with
+  | some k =>
+    simp only [pure] at h
+    obtain ⟨rfl, _⟩ := G.pure_ok h
+    exact h1 _ rfl
+  | none =>
+    simp only at h
+    obtain ⟨ha, hb, _⟩ := randint_ok h
+    unfold LenOK
+    cases mn <;> cases mx <;> simp_all <;> omega
+
+theorem replicateG_sound {m : G PyVal} {P : PyVal → Prop} (hm : ∀ st st' v, m st = .ok (v, st') → P v) :
+    ∀ (n : Nat) (st st' : GS) (xs : List PyVal), replicateG m n st = .ok (xs, st') →
+      xs.length = n ∧ ∀ x ∈ xs, P x
+  | 0, st, st', xs, h => by
+    simp only [replicateG, pure] at h
+    simp [(G.pure_ok h).1]
+  | n + 1, st, st', xs, h => by
+    simp only [replicateG, bind, pure] at h
+    obtain ⟨a, st1, h1, h2⟩ := G.bind_ok h
+    obtain ⟨b, st2, h3, h4⟩ := G.bind_ok h2
+    obtain ⟨rfl, _⟩ := G.pure_ok h4
+    obtain ⟨hl, hp⟩ := replicateG_sound hm n _ _ _ h3
+    refine ⟨by simp [hl], ?_⟩
+    intro x hx
+    rcases List.mem_cons.1 hx with rfl | hx
+    · exact hm _ _ _ h1
+    · exact hp x hx
+
+theorem AllC_of_forall (env : Env) (t : Schema) : ∀ (xs : List PyVal), (∀ x ∈ xs, Conforms env t x) → AllC env t xs
+  | [], _ => by simp [AllC]
+  | x :: xs, h => by
+    simp only [AllC]
+    exact ⟨h x (by simp), AllC_of_forall env t xs (fun y hy => h y (by simp [hy]))⟩
+
+theorem lookupKey_none_of_not_mem {k : PyKey} : ∀ {kvs : List (PyKey × PyVal)},
+    k ∉ kvs.map (·.1) → lookupKey k kvs = none
+  | [], _ => by simp [lookupKey]
+  | (k', v) :: r, h => by
+    simp only [List.map_cons, List.mem_cons, not_or] at h
+    simp only [lookupKey, h.1, if_false]
+    exact lookupKey_none_of_not_mem h.2
+
+theorem lookupKey_append_of_not_mem {k : PyKey} : ∀ {pre kvs : List (PyKey × PyVal)},
+    k ∉ pre.map (·.1) → lookupKey k (pre ++ kvs) = lookupKey k kvs
+  | [], _, _ => by simp
+  | (k', v) :: r, kvs, h => by
+    simp only [List.map_cons, List.mem_cons, not_or] at h
+    simp only [List.cons_append, lookupKey, h.1, if_false]
+    exact lookupKey_append_of_not_mem h.2
+
+theorem hasField_of_mem {k : PyKey} {fs : List (PyKey × Bool × Schema)} (h : k ∈ fs.map (·.1)) :
+    hasField k fs = true := by
+  simp only [List.mem_map] at h
+  obtain ⟨f, hf, rfl⟩ := h
+  simp only [hasField, List.any_eq_true]
+  exact ⟨f, hf, by simp⟩
+
+mutual
+theorem gen_conforms (env : Env) (he : EnvOK env) (ext : ClsItem → Nat → Prop) :
+    ∀ (s : Schema) (_ : GenHyp env ext s) (st st' : GS) (v : PyVal),
+      gen env s st = .ok (v, st') → Conforms env s v
+  | .scalar k, hs, st, st', v, h => by
+    simp only [gen] at h
+    simp only [GenHyp] at hs
+    simp only [Conforms]
+    exact (validateScalar_nil_iff env k v []).1 (genScalar_sound env he ext k hs st st' v [] h)
+  | .listU L, hs, st, st', v, h => by
+    simp only [GenHyp] at hs
+    simp only [gen] at h
+    simp only [Conforms]
+    cases hl : L.len with
+    | some k =>
+      simp only [hl, pure] at h
+      obtain ⟨rfl, _⟩ := G.pure_ok h
+      exact ⟨_, rfl, by simpa using hs.1 k hl⟩
+    | none =>
+      simp only [hl, bind] at h
+      obtain ⟨n, st1, h1, h2⟩ := G.bind_ok h
+      have hn := genLength_list_ok hs h1
+      split at h2
+      · simp only [pure] at h2
+        obtain ⟨rfl, _⟩ := G.pure_ok h2
+        exact ⟨_, rfl, by simpa using hn⟩
+      · rename_i hc
+        simp only [pure] at h2
+        obtain ⟨rfl, _⟩ := G.pure_ok h2
+        refine ⟨_, rfl, ?_⟩
+        simp only [Bool.or_eq_true, not_or, Option.isSome_iff_ne_none, ne_eq, Decidable.not_not] at hc
+        simp [LenOK, hl, hc.1, hc.2]
+  | .listT t L, hs, st, st', v, h => by
+    simp only [GenHyp] at hs
+    simp only [gen, bind, pure] at h
+    obtain ⟨n, st1, h1, h2⟩ := G.bind_ok h
+    obtain ⟨xs, st2, h3, h4⟩ := G.bind_ok h2
+    obtain ⟨rfl, _⟩ := G.pure_ok h4
+    have hn := genLength_list_ok hs.1 h1
+    obtain ⟨hlen, hall⟩ := replicateG_sound (P := Conforms env t)
+      (fun a b c hh => gen_conforms env he ext t hs.2 a b c hh) _ _ _ _ h3
+    simp only [Conforms]
+    exact ⟨xs, rfl, by rw [hlen]; exact hn, AllC_of_forall env t xs hall⟩
+  | .listE lead es trail L, hs, st, st', v, h => by
+    simp only [GenHyp] at hs
+    simp only [gen, bind, pure] at h
+    obtain ⟨xs, st1, h1, h2⟩ := G.bind_ok h
+    obtain ⟨rfl, _⟩ := G.pure_ok h2
+    obtain ⟨hlen, hp⟩ := genList_conforms env he ext es hs.2 _ _ _ h1
+    simp only [Conforms]
+    refine ⟨xs, rfl, by rw [hlen]; exact hs.1, ?_⟩
+    split
+    · rename_i hc
+      refine ⟨0, ?_, by simpa using hp⟩
+      rw [hlen]
+      exact List.length_pos_iff.2 hc.2.2
+    · split
+      · exact hp
+      · split
+        · simpa [hlen] using hp
+        · exact ⟨hlen, hp⟩
+  | .dict none _, hs, st, st', v, h => by
+    simp only [gen, pure] at h
+    obtain ⟨rfl, _⟩ := G.pure_ok h
+    simp [Conforms]
+  | .dict (some fs) ell, hs, st, st', v, h => by
+    simp only [GenHyp] at hs
+    simp only [gen, bind, pure] at h
+    obtain ⟨kvs, st1, h1, h2⟩ := G.bind_ok h
+    obtain ⟨rfl, _⟩ := G.pure_ok h2
+    obtain ⟨hk, hf⟩ := genFields_conforms env he ext fs hs.2 hs.1 _ _ _ h1
+    simp only [Conforms]
+    refine ⟨kvs, rfl, by simpa using hf [] (by simp), ?_⟩
+    intro _ kv hkv
+    exact hasField_of_mem (hk kv hkv)
+  | .any none, hs, st, st', v, h => by simp [Conforms]
+  | .any (some ts), hs, st, st', v, h => by
+    simp only [GenHyp] at hs
+    simp only [gen, bind] at h
+    obtain ⟨i, st1, h1, h2⟩ := G.bind_ok h
+    simp only [Conforms]
+    exact genNth_conforms env he ext ts i hs _ _ _ h2
+  | .alias _ t, hs, st, st', v, h => by
+    simp only [GenHyp] at hs
+    simp only [gen] at h
+    simp only [Conforms]
+    exact gen_conforms env he ext t hs _ _ _ h
+  | .custom t, hs, st, st', v, h => by
+    simp only [GenHyp] at hs
+    simp only [gen] at h
+    simp only [Conforms]
+    exact gen_conforms env he ext t hs _ _ _ h
+theorem genList_conforms (env : Env) (he : EnvOK env) (ext : ClsItem → Nat → Prop) :
+    ∀ (ss : List Schema) (_ : GenHypL env ext ss) (st st' : GS) (xs : List PyVal),
+      genList env ss st = .ok (xs, st') → xs.length = ss.length ∧ PrefixC env ss xs
+  | [], hs, st, st', xs, h => by
+    simp only [genList, pure] at h
+    simp [(G.pure_ok h).1, PrefixC]
+  | s :: ss, hs, st, st', xs, h => by
+    simp only [GenHypL] at hs
+    simp only [genList, bind, pure] at h
+    obtain ⟨a, st1, h1, h2⟩ := G.bind_ok h
+    obtain ⟨b, st2, h3, h4⟩ := G.bind_ok h2
+    obtain ⟨rfl, _⟩ := G.pure_ok h4
+    obtain ⟨hl, hp⟩ := genList_conforms env he ext ss hs.2 _ _ _ h3
+    simp only [PrefixC]
+    exact ⟨by simp [hl], gen_conforms env he ext s hs.1 _ _ _ h1, hp⟩
+theorem genFields_conforms (env : Env) (he : EnvOK env) (ext : ClsItem → Nat → Prop) :
+    ∀ (fs : List (PyKey × Bool × Schema)) (_ : GenHypF env ext fs) (_ : (fs.map (·.1)).Nodup)
+      (st st' : GS) (kvs : List (PyKey × PyVal)),
+      genFields env fs st = .ok (kvs, st') →
+        (∀ kv ∈ kvs, kv.1 ∈ fs.map (·.1)) ∧
+        ∀ pre : List (PyKey × PyVal), (∀ kv ∈ pre, kv.1 ∉ fs.map (·.1)) → FieldsC env fs (pre ++ kvs)
+  | [], hs, hnd, st, st', kvs, h => by
+    simp only [genFields, pure] at h
+    simp [(G.pure_ok h).1, FieldsC]
+  | (k, true, s) :: fs, hs, hnd, st, st', kvs, h => by
+    simp only [GenHypF] at hs
+    simp only [List.map_cons, List.nodup_cons] at hnd
+    simp only [genFields, if_true] at h
+    obtain ⟨hk, hf⟩ := genFields_conforms env he ext fs hs.2 hnd.2 _ _ _ h
+    refine ⟨fun kv hkv => by simp [hk kv hkv], ?_⟩
+    intro pre hpre
+    simp only [FieldsC]
+    have hpre' : ∀ kv ∈ pre, kv.1 ∉ fs.map (·.1) := fun kv hkv hm => hpre kv hkv (by simp [hm])
+    refine ⟨?_, hf pre hpre'⟩
+    have : lookupKey k (pre ++ kvs) = none := by
+      apply lookupKey_none_of_not_mem
+      simp only [List.map_append, List.mem_append, not_or]
+      constructor
+      · intro hm
+        obtain ⟨kv, hkv, rfl⟩ := List.mem_map.1 hm
+        exact hpre kv hkv (by simp)
+      · intro hm
+        obtain ⟨kv, hkv, rfl⟩ := List.mem_map.1 hm
+        exact hnd.1 (hk kv hkv)
+    simp [this]
+  | (k, false, s) :: fs, hs, hnd, st, st', kvs, h => by
+    simp only [GenHypF] at hs
+    simp only [List.map_cons, List.nodup_cons] at hnd
+    simp only [genFields, Bool.false_eq_true, if_false, bind, pure] at h
+    obtain ⟨a, st1, h1, h2⟩ := G.bind_ok h
+    obtain ⟨b, st2, h3, h4⟩ := G.bind_ok h2
+    obtain ⟨rfl, _⟩ := G.pure_ok h4
+    obtain ⟨hk, hf⟩ := genFields_conforms env he ext fs hs.2 hnd.2 _ _ _ h3
+    have ha := gen_conforms env he ext s (hs.1 (by simp)) _ _ _ h1
+    constructor
+    · intro kv hkv
+      rcases List.mem_cons.1 hkv with rfl | hkv
+      · simp
+      · simp [hk kv hkv]
+    · intro pre hpre
+      simp only [FieldsC]
+      constructor
+      · have : lookupKey k (pre ++ (k, a) :: b) = some a := by
+          rw [lookupKey_append_of_not_mem]
+          · simp [lookupKey]
+          · intro hm
+            obtain ⟨kv, hkv, rfl⟩ := List.mem_map.1 hm
+            exact hpre kv hkv (by simp)
+        simp only [this]
+        exact ha
+      · have := hf (pre ++ [(k, a)]) (by
+          intro kv hkv hm
+          rcases List.mem_append.1 hkv with hkv | hkv
+          · exact hpre kv hkv (by simp [hm])
+          · simp only [List.mem_singleton] at hkv
+            subst hkv
+            exact hnd.1 hm)
+        simpa using this
+theorem genNth_conforms (env : Env) (he : EnvOK env) (ext : ClsItem → Nat → Prop) :
+    ∀ (ss : List Schema) (i : Nat) (_ : GenHypL env ext ss) (st st' : GS) (v : PyVal),
+      genNth env ss i st = .ok (v, st') → AnyC env ss v
+  | [], i, hs, st, st', v, h => by simp [genNth, G.fail] at h
+  | s :: ss, 0, hs, st, st', v, h => by
+    simp only [GenHypL] at hs
+    simp only [genNth] at h
+    simp only [AnyC]
+    exact Or.inl (gen_conforms env he ext s hs.1 _ _ _ h)
+  | s :: ss, i + 1, hs, st, st', v, h => by
+    simp only [GenHypL] at hs
+    simp only [genNth] at h
+    simp only [AnyC]
+    exact Or.inr (genNth_conforms env he ext ss i hs.2 _ _ _ h)
+end
+
+/-- **C01.** For every schema satisfying the hereditary hypothesis, every value `fake` returns — for every
+    outcome of every draw — is accepted by `validate` with zero errors. -/
+theorem gen_sound (env : Env) (he : EnvOK env) (ext : ClsItem → Nat → Prop) (s : Schema)
+    (hs : GenHyp env ext s) (st st' : GS) (v : PyVal) (p : Path)
+    (h : gen env s st = .ok (v, st')) : validateP env false s v p = [] :=
+  (validateP_nil_iff env s v p).2 (gen_conforms env he ext s hs st st' v h)
+
+/-- K4 witness: with a dead alternative the union is satisfiable but the generator fails when it is drawn -/
+theorem gen_dead_alternative_counterexample (env : Env) :
+    let s := Schema.any (some [.scalar (.int none (some 5) (some 3)), .scalar (.str (some [120]) {} none none none)])
+    Conforms env s (.str [120]) ∧ ∃ e, gen env s { draws := [.idx 0] } = .error e := by
+  intro s
+  constructor
+  · simp [s, Conforms, AnyC, ConformsScalar, LenOK]
+  · refine ⟨.valueError, ?_⟩
+    simp [s, gen, bind, G.bind, choiceIdx, genNth, genScalar, randint]
+
+/-- K2 witness: `schema.list([schema.int, ...]).len(3)` generates one element, which it rejects -/
+theorem gen_ellipsis_len_counterexample (env : Env) :
+    let s := Schema.listE false [.scalar (.int none none none)] true { len := some 3 }
+    ∃ v st', gen env s { draws := [.int 7] } = .ok (v, st') ∧ validateP env false s v [] ≠ [] := by
+  intro s
+  refine ⟨.list [.int 7], { draws := [], reqs := [.randint Consts.INT_MIN Consts.INT_MAX] }, ?_, ?_⟩
+  · simp [s, gen, genList, bind, G.bind, pure, G.pure, genScalar, randint, pyMaxI, pyMinI, Consts.INT_MIN, Consts.INT_MAX]
+  · simp [s, validateP, lenErrFirst]
+
+end D42
